@@ -16,8 +16,10 @@ from ..ncf import M
 from .. import ncf, anf
 from ..anf import R, Unsupported
 from .common import struct_ob, formula_ob, guard, last_return, gradient_lists_in_order, U
-from .gpm import gp_expander, refs, mob, REL
+from .gpm import gp_expander, refs, mob, REL, mean_first_layout, gradient_scatter
 from ..report import AnalysisError
+from ..term import Resolver, pmatch, find_all, abstract, anf_of
+from ..seq import Layouts, UNKNOWN, show
 
 FLOORS = {"lml-form": 2, "lml-gradient-form": 2, "factor-of": 2, "loo-form": 3, "loo-gradient-form": 2,
           "slice-layout": 7, "bounds-passed": 2, "multistart": 1, "selector-wiring": 2}
@@ -50,6 +52,68 @@ def _scalar_broadcast(fn, grad_lists):
                     out.append(f"`{ast.unparse(st.targets[0])} = {ast.unparse(v)}`: a full reduction over the stacked gradients is a "
                                f"single number, broadcast to every hyper-parameter of the group instead of one partial derivative each")
     return out
+
+
+def _multistart(prog, c7, ms):
+    """Starts lie in the bounds box (centre included), L-BFGS-B runs from every start, the lowest cost wins."""
+    L = Layouts(ms, prog, c7.module, c7)
+    rz = L.rz
+    why = []
+    # the list of starts
+    runs = rz.calls(lambda f: f == "self.launch_bfgs") + rz.calls(lambda f: f.endswith(".map"))
+    starts_names = set()
+    for n in ast.walk(ms):
+        if isinstance(n, ast.ListComp) and pmatch(n, "[self.launch_bfgs(_x) for _x in _S]") is not None:
+            starts_names.add(U(n.generators[0].iter))
+        if isinstance(n, ast.Call) and isinstance(n.func, ast.Attribute) and n.func.attr == "map" and len(n.args) == 2 \
+                and U(n.args[0]) == "self.launch_bfgs":
+            starts_names.add(U(n.args[1]))
+    if len(starts_names) != 1:
+        why.append(f"L-BFGS-B is not run over one list of starts on every path (lists used: {sorted(starts_names)})")
+    else:
+        sname = next(iter(starts_names))
+        lay = L.state.get(sname)
+        lo = "array([k[0] for k in self.hp_bounds])"
+        hi = "array([k[1] for k in self.hp_bounds])"
+        okl = False
+        if lay is not None and lay is not UNKNOWN:
+            n_in, n_centre, bad = 0, 0, []
+            for part in lay:
+                txt_ = part[2] if part[0] == "each" else part[1] if part[0] == "item" else None
+                if txt_ is None:
+                    bad.append(show((part,)))
+                    continue
+                t_ = ast.parse(txt_, mode="eval").body
+                ab, seen = abstract(t_, [("[array([_k[_i] for _k in self.hp_bounds]) for _i in [0, 1]][0]", "LO"),
+                                         ("[array([_k[_i] for _k in self.hp_bounds]) for _i in [0, 1]][1]", "HI"),
+                                         ("array([_k[0] for _k in self.hp_bounds])", "LO"), ("array([_k[1] for _k in self.hp_bounds])", "HI"),
+                                         ("random(size=len(self.hp_bounds))", "RND"), ("random(len(self.hp_bounds))", "RND"),
+                                         ("random(size=self.n_hyperpars)", "RND")])
+                try:
+                    v = anf_of(ab)
+                except Unsupported:
+                    bad.append(txt_[:120])
+                    continue
+                LO, HI, RND = R.sym("LO"), R.sym("HI"), R.sym("RND")
+                if v.eq(LO + (HI - LO) * RND):
+                    n_in += 1
+                elif v.eq((LO + HI) / 2):
+                    n_centre += 1
+                else:
+                    bad.append(txt_[:120])
+            okl = n_in >= 1 and n_centre >= 1 and not bad
+            if not okl:
+                why.append(f"starts are not (random points lwr + (upr - lwr) u inside the box) plus the centre of the box: {show(lay)[:300]}")
+        else:
+            why.append(f"the list of starts `{sname}` has no determined layout")
+    rets = rz.return_terms()
+    okr = len(rets) == 1 and any(pmatch(rets[0], pt) is not None for pt in
+                                 ("sorted(_r, key=lambda z: z[1])[0][0]", "min(_r, key=lambda z: z[1])[0]"))
+    if not okr:
+        why.append(f"the returned solution `{U(rets[0])[:160] if rets else None}` is not the lowest-cost result")
+    return struct_ob("multistart", qual(c7, ms), not why,
+                     "the multi-start must include the centre of the bounds box, draw the other starts inside the box, run "
+                     "L-BFGS-B from every start and return the lowest-cost solution: " + "; ".join(why), REL, ms.lineno)
 
 
 def loo_expander(prog, ci):
@@ -224,26 +288,13 @@ def run(prog, tier):
 
     # ---------------------------------------------------------------- slice layout
     for mname in ("loo_likelihood_gradient", "marginal_likelihood_gradient"):
-        c3, fn = prog.method("GpRegressor", mname)
-        txt = U(fn)
-        ok = (("grad[self.cov_slice] = array(cov_gradients)" in txt and "grad[self.mean_slice] = array(mean_gradients)" in txt)
-              if mname.startswith("loo") else
-              ("grad[self.mean_slice] = array([(alpha * dmu).sum() for dmu in grad_mu])" in txt
-               and "for dK in grad_K" in txt and "grad[self.cov_slice] = array(" in txt))
-        ok = ok and "self.cov.covariance_and_gradients(theta[self.cov_slice])" in txt \
-            and "self.mean.mean_and_gradients(theta[self.mean_slice])" in txt
-        obs.append(struct_ob("slice-layout", qual(c3, fn), ok,
-                             "mean / covariance gradients must be computed from and scattered into their own slices", REL, fn.lineno))
-    c3, init = prog.method("GpRegressor", "__init__")
-    src = {U(s.targets[0]): U(s.value) for s in ast.walk(init) if isinstance(s, ast.Assign) and len(s.targets) == 1}
-    txt = U(init)
-    ok = (src.get("self.hp_bounds") == "copy(self.mean.bounds)" and "self.hp_bounds.extend(copy(self.cov.bounds))" in txt
-          and src.get("self.mean_slice") == "slice(0, self.mean.n_params)"
-          and src.get("self.cov_slice") == "slice(self.mean.n_params, self.n_hyperpars)"
-          and src.get("self.n_hyperpars") == "len(self.hp_bounds)"
-          and src.get("self.hyperpar_labels") == "[*self.mean.hyperpar_labels, *self.cov.hyperpar_labels]")
-    obs.append(struct_ob("slice-layout", qual(c3, init), ok,
-                         "bounds, labels and slices must all be mean-first then covariance", REL, init.lineno))
+        c3, fn, why_ = gradient_scatter(prog, "GpRegressor", mname)
+        obs.append(struct_ob("slice-layout", qual(c3, fn), not why_,
+                             "mean / covariance gradients must be computed from and scattered into their own slices: " + "; ".join(why_),
+                             REL, fn.lineno))
+    c3, init, why_ = mean_first_layout(prog, "GpRegressor", "__init__", "self.hp_bounds")
+    obs.append(struct_ob("slice-layout", qual(c3, init), not why_,
+                         "bounds, labels and slices must all be mean-first then covariance: " + "; ".join(why_), REL, init.lineno))
     # selector wiring
     ifs = [s for s in init.body if isinstance(s, ast.If) and U(s.test) == "cross_val"]
     ok = False
@@ -255,37 +306,39 @@ def run(prog, tier):
     obs.append(struct_ob("selector-wiring", qual(c3, init), ok,
                          "the selector and its value-and-gradient form must be the same criterion on both arms of cross_val", REL, init.lineno))
     c4, bc = prog.method("GpRegressor", "bfgs_cost_func")
-    body = [U(s) for s in bc.body]
-    obs.append(struct_ob("selector-wiring", qual(c4, bc), body == ["y, grad_y = self.model_selector_gradient(theta)", "return (-y, -grad_y)"],
-                         f"the BFGS cost must be the negated selector and negated gradient: {body}", REL, bc.lineno))
+    rb = Resolver(bc, prog, c4.module, c4)
+    tp = bc.args.args[1].arg
+    rets = rb.return_terms()
+    ok = len(rets) == 1 and pmatch(rets[0], f"(-self.model_selector_gradient({tp})[0], -self.model_selector_gradient({tp})[1])") is not None
+    obs.append(struct_ob("selector-wiring", qual(c4, bc), ok,
+                         f"the BFGS cost must be the negated selector and negated gradient: `{U(rets[0]) if rets else None}`", REL, bc.lineno))
 
     # ---------------------------------------------------------------- bounds passed / multistart
     c5, de = prog.method("GpRegressor", "differential_evo")
-    calls = [n for n in ast.walk(de) if isinstance(n, ast.Call) and U(n.func) == "differential_evolution"]
-    ok = len(calls) == 1 and (lambda b: b is not None and U(b) == "self.hp_bounds")(get_kw(calls[0], "bounds", 1)) \
-        and U(get_kw(calls[0], "func", 0)) == "lambda x: -self.model_selector(x)"
+    rd = Resolver(de, prog, c5.module, c5)
+    calls = rd.calls(lambda f: f == "differential_evolution")
+    ok = False
+    if len(calls) == 1:
+        fa, ba = rd.arg(calls[0][0], 0, "func"), rd.arg(calls[0][0], 1, "bounds")
+        rets = rd.return_terms()
+        ok = (fa is not None and pmatch(fa, "lambda z: -self.model_selector(z)") is not None and ba is not None and U(ba) == "self.hp_bounds"
+              and len(rets) == 1 and pmatch(rets[0], "differential_evolution(*_).x") is not None)
     obs.append(struct_ob("bounds-passed", qual(c5, de), ok,
-                         f"differential evolution must minimise -selector over self.hp_bounds: `{U(calls[0]) if calls else None}`",
-                         REL, de.lineno))
+                         f"differential evolution must minimise -selector over self.hp_bounds and return its solution: "
+                         f"`{U(calls[0][0]) if calls else None}`", REL, de.lineno))
     c6, lb = prog.method("GpRegressor", "launch_bfgs")
-    calls = [n for n in ast.walk(lb) if isinstance(n, ast.Call) and U(n.func) == "fmin_l_bfgs_b"]
-    ok = len(calls) == 1 and (lambda b: b is not None and U(b) == "self.hp_bounds")(get_kw(calls[0], "bounds")) \
-        and U(get_kw(calls[0], "func", 0)) == "self.bfgs_cost_func" \
-        and (lambda a: a is not None and U(a) == "False")(get_kw(calls[0], "approx_grad"))
+    rl = Resolver(lb, prog, c6.module, c6)
+    calls = rl.calls(lambda f: f == "fmin_l_bfgs_b")
+    ok = False
+    if len(calls) == 1:
+        fa, ba, ga = rl.arg(calls[0][0], 0, "func"), rl.arg(calls[0][0], None, "bounds"), rl.arg(calls[0][0], None, "approx_grad")
+        ok = (fa is not None and U(fa) == "self.bfgs_cost_func" and ba is not None and U(ba) == "self.hp_bounds"
+              and (ga is None and False or (ga is not None and U(ga) in ("False", "0"))))
     obs.append(struct_ob("bounds-passed", qual(c6, lb), ok,
                          f"L-BFGS-B must minimise bfgs_cost_func with its analytic gradient within self.hp_bounds: "
-                         f"`{U(calls[0]) if calls else None}`", REL, lb.lineno))
+                         f"`{U(calls[0][0]) if calls else None}`", REL, lb.lineno))
     c7, ms = prog.method("GpRegressor", "multistart_bfgs")
-    txt = U(ms)
-    ok = ("lwr, upr = [array([k[i] for k in self.hp_bounds]) for i in [0, 1]]" in txt
-          and "starting_positions.append(0.5 * (lwr + upr))" in txt
-          and "lwr + (upr - lwr) * random(size=len(self.hp_bounds))" in txt
-          and "solution = sorted(results, key=lambda x: x[1])[0][0]" in txt
-          and "results = [self.launch_bfgs(x0) for x0 in starting_positions]" in txt
-          and "results = workers.map(self.launch_bfgs, starting_positions)" in txt)
-    obs.append(struct_ob("multistart", qual(c7, ms), ok,
-                         "the multi-start must include the centre of the bounds box, draw the other starts inside the box, run "
-                         "L-BFGS-B from every start and return the lowest-cost solution", REL, ms.lineno))
+    obs.append(_multistart(prog, c7, ms))
 
     meta = {
         "explanation": "Matrix normal form for the marginal likelihood, its value-and-gradient sibling and both gradient parts "
